@@ -157,6 +157,15 @@ Theorem C04_gen_fresh : forall p0 m h,
 Proof. exact inject_fresh_run. Qed.
 Print Assumptions C04_gen_fresh.
 
+(* every wire ID that was ever emitted, is not an injected ID and lies above the forgotten
+   injections translates back to an ID the endpoint really sent (some [Fwd a] of the history) *)
+Theorem C04_wire_id_translates_back_to_a_sent_id : forall p0 m h w a,
+  let g := reach p0 m h in
+  In w (seen g) -> ~ In w (jall g) -> above_evicted g w -> orig (tr g) w = Some a ->
+  In (Fwd a) h.
+Proof. exact orig_was_sent. Qed.
+Print Assumptions C04_wire_id_translates_back_to_a_sent_id.
+
 (* ------------------------------------------------------------------ *)
 (* The UNQUALIFIED statement (stability / avoiding injected IDs / reversibility for
    every ID, without "above the forgotten injections") is false of the code: with a
